@@ -26,7 +26,7 @@ func init() {
 		Assumptions: []string{"read-only endpoints that need the database (eons, decryptionKey) are exercised for routing only (nil pool; chi's Recoverer turns the handler's nil dereference into 500, which still proves the handler was reached)"},
 		Real:        []string{"kprapi.Server.setupRouter/setupAPIRouter", "kproapi.ConfigMiddleware/findOperation", "generated chi handlers", "chi-middleware.OapiRequestValidator"},
 		Stub:        []string{"TCP listener (httptest recorder)", "database pool (nil)"},
-		QuickRuns:   1500, ThoroughRuns: 150000, QuickMinimize: 200, ThoroughMinimize: 1000,
+		QuickRuns:   6000, ThoroughRuns: 150000, QuickMinimize: 200, ThoroughMinimize: 1000,
 	})
 }
 
